@@ -257,6 +257,17 @@ class Prop(common.PropertyCheck):
                 out['problems'].append('to_mef(channels=%s) changed the RFI sample it was given (events or range limits): gating that sample afterwards is no longer gating before the conversion' % (ch2,))
             gated_first = FlowCal.transform.to_mef(FlowCal.gate.high_low(rfi), ch2, scs, sc_ch)
             limits_check(rfi_keep, mef, ccols, 'to_mef')
+            # histogram bins asked of the converted samples on every scale (as the plotting functions do) before they are gated: the limits stay what they are
+            for nm, obj in (('RFI', rfi_keep), ('MEF', mef)):
+                lim0 = [tuple(v) if v is not None else None for v in obj.range()]
+                for sc in ('log', 'linear', 'logicle'):
+                    try:
+                        obj.hist_bins(scale=sc)
+                        obj.hist_bins(0, 8, sc)
+                    except Exception:
+                        pass
+                if [tuple(v) if v is not None else None for v in obj.range()] != lim0:
+                    out['problems'].append('asking the %s sample for its histogram bins changed its range limits from %s to %s' % (nm, lim0[:3], [tuple(v) for v in obj.range()][:3]))
             # a sample from which a gate removed every event: its limits are converted like those of any other sample
             try:
                 e_rfi = FlowCal.transform.to_rfi(d[:0], ch1, **kw)
